@@ -31,7 +31,7 @@ ASSUMPTIONS = [
 ]
 BUDGET = {"quick": 70, "thorough": 700}
 FLOORS = {"crash_points": {"quick": 3000, "thorough": 100000}, "directory_states_checked": {"quick": 3000, "thorough": 100000},
-          "depth2_states": {"quick": 1500, "thorough": 50000}, "real_kills": {"quick": 20, "thorough": 150}, "driver_saves": 8, "interrupt_points": 100, "driver_runs_stopped_by_sigint": 3, "denied_temp_file_points": 2}
+          "depth2_states": {"quick": 1500, "thorough": 50000}, "real_kills": {"quick": 20, "thorough": 150}, "driver_saves": 8, "interrupt_points": 100, "driver_runs_stopped_by_sigint": 3, "denied_temp_file_points": 2, "nonfinite_state_points": 10}
 
 NAME = "/ckpt/checkpoint.json"
 
@@ -64,6 +64,7 @@ def cases(tier, seed):
     # whatever it does instead must not endanger the existing checkpoint either; every crash point of that
     for bs in (1, 64):
         out.append({"engine": "shim-denied", "bufsize": bs, "npar": 2})
+        out.append({"engine": "shim-nonfinite", "bufsize": bs, "npar": 2})
     # real process death: both ends of the write (open, first writes, close, renames, remove) and interior points
     pos = [("abs", 0), ("abs", 1), ("abs", 2)] + [("end", j) for j in range(0, 6)]
     pos += [("frac", float(f)) for f in rng.uniform(0.02, 0.98, 6 if tier == "quick" else 120)]
@@ -83,7 +84,12 @@ def params(version, npar):
     import torch
     from torchtree import Parameter
 
+    if version == NONFINITE:  # a diverged state (what a run that went wrong holds when its next checkpoint is due)
+        return [Parameter("p%d" % i, torch.tensor([float("nan"), float("inf") if i % 2 else float("-inf"), -1.5 * version], dtype=torch.float64)) for i in range(npar)]
     return [Parameter("p%d" % i, torch.tensor([float(version), version + 0.25 * i, -1.5 * version], dtype=torch.float64)) for i in range(npar)]
+
+
+NONFINITE = 9
 
 
 def encoded(version, npar):
@@ -144,7 +150,7 @@ def classify(files, versions, npar):
             continue
         out[suffix] = "mixture"
         for v in versions:
-            if doc == encoded(v, npar):
+            if json.dumps(doc, sort_keys=True) == json.dumps(encoded(v, npar), sort_keys=True):  # (as text: a NaN is not equal to itself)
                 out[suffix] = v
     return out
 
@@ -244,6 +250,35 @@ def run_case(case):
                 judge(V, C, seen, files, f2, g | {v}, npar, step + 1, "path step %d killed before op %d/%d" % (step, k, n))
                 files = f2
             C["deep_paths"] += 1
+    elif eng == "shim-nonfinite":
+        # the state to be saved holds nan / inf (a diverged run): whatever the writer does with it - write it (Python's JSON has tokens for
+        # them), refuse it - the directory afterwards, and at every crash point on the way, still holds a complete checkpoint
+        from torchtree.core.parameter_encoder import ParameterEncoder
+        from torchtree.core.parameter_utils import save_parameters
+
+        bs, npar = case["bufsize"], case["npar"]
+        base = {NAME: json.dumps(params(1, npar), cls=ParameterEncoder, indent=2).encode()}
+        k, total = None, None
+        while True:
+            vfs = fsshim.VFS(base, bs, crash_at=k)
+            outcome = "completed"
+            with fsshim.installed(vfs):
+                try:
+                    save_parameters(NAME, params(NONFINITE, npar))
+                except fsshim.Crash:
+                    outcome = "killed"
+                except Exception as ex:  # a writer may refuse such a state: the directory is judged all the same
+                    outcome = "raised " + type(ex).__name__
+            C["crash_points"] += 1
+            C["nonfinite_state_points"] = C.get("nonfinite_state_points", 0) + 1
+            C["shim_operations_intercepted"] += len(vfs.ops)
+            judge(V, C, seen, base, vfs.files, {1, NONFINITE}, npar, 1, "state with nan/inf, %s (write %s)" % ("not interrupted" if k is None else "killed before operation %d" % k, outcome))
+            if k is None:
+                total, k = len(vfs.ops), 0
+            else:
+                k += 1
+            if k > total:
+                break
     elif eng == "shim-denied":
         run_denied(case, V, C, seen)
     elif eng == "sigkill":
